@@ -81,6 +81,9 @@ pub enum Step {
     WaitClientMessages(usize),
     /// stay silent for this long (virtual)
     SleepMs(u64),
+    /// SSH only (elsewhere nothing happens): an extended-data packet (stderr of the subsystem) on the
+    /// netconf channel; it is not part of the NETCONF byte stream
+    SshStderr(Vec<u8>),
     /// record the virtual instant at which reply k has been completely written
     Mark(usize),
     /// behave like a conforming RFC 6242 server after the hello exchange: if both hellos advertise
@@ -117,6 +120,9 @@ pub struct Scenario {
     /// after issuing its requests the client calls close() and drops the reply future it returns
     /// (which owns the session) without polling it; the outstanding requests are then awaited
     pub abandon_close: bool,
+    /// when everything else is done the client closes the session: close() and the reply future it returns
+    /// are awaited; the result goes to `Outcome.close`
+    pub final_close: bool,
 }
 
 /// SSH server behaviour before the NETCONF subsystem runs
@@ -155,6 +161,8 @@ pub struct Outcome {
     /// (reply index, virtual ns) of every Step::Mark
     pub marks: Vec<(usize, u64)>,
     pub extra: Option<Res>,
+    /// result of Session::close() (request sent and reply awaited), if the scenario asks for it
+    pub close: Option<Res>,
     pub virt_ns: u64,
     pub client_messages: Vec<String>,
     pub harness_error: Option<String>,
@@ -487,6 +495,12 @@ async fn play(steps: Vec<Step>, mut io: PeerIo, ps: Ps, out: Arc<Mutex<Outcome>>
                 tokio::time::sleep(Duration::from_millis(1)).await;
             }
             Step::SleepMs(ms) => tokio::time::sleep(Duration::from_millis(ms)).await,
+            Step::SshStderr(data) => {
+                if let PeerIo::Ssh(chan, handle, _) = &mut io {
+                    handle.extended_data(*chan, 1, russh::CryptoVec::from_slice(&data)).await.map_err(|_| "peer ssh data failed".to_string())?;
+                    tokio::time::sleep(Duration::from_millis(1)).await;
+                }
+            }
             Step::DropRequest(k) => {
                 let mut o = out.lock().unwrap();
                 let pending = matches!(o.results.get(k), Some(Res::Hang));
@@ -701,6 +715,14 @@ where
             Err(_) => Res::Hang,
         };
         out.lock().unwrap().extra = Some(r);
+    }
+    if sc.final_close {
+        let r = match patient(s.close()).await {
+            Ok(Ok(reply)) => res_of(patient(reply).await, |()| "closed".to_string()),
+            Ok(Err(e)) => Res::Err(format!("send: {e:?}").chars().take(200).collect()),
+            Err(_) => Res::Hang,
+        };
+        out.lock().unwrap().close = Some(r);
     }
 }
 
